@@ -3,9 +3,12 @@ package wpool
 import (
 	"context"
 	"log/slog"
+
+	"github.com/glebziz/fs_db/internal/verifhook"
 )
 
 func (p *Pool) Run(ctx context.Context) {
+	verifhook.At("wpool.run.enter")
 	if !p.runM.TryLock() {
 		slog.Warn("worker pool already running")
 		return
@@ -26,7 +29,9 @@ func (p *Pool) run() {
 		case <-p.ctx.Done():
 			return
 		case e := <-p.ch:
+			verifhook.At("wpool.worker.recv")
 			p.exec(e)
+			verifhook.At("wpool.worker.done")
 		}
 	}
 }
